@@ -66,6 +66,27 @@ fn bv_queries(g: &mut Gen, name: &str, bits: &[bool], samples: usize, lines: &mu
 }
 
 pub fn c01(g: &mut Gen) {
+    // beyond 2^32 bits / 2^32 set bits (counts, ranks and sample arrays must be full-width): thorough scale only
+    // (about 0.7 GiB and a few seconds per case; each case is its own group, hence its own process shard)
+    if g.thorough {
+        let big: u64 = (1u64 << 32) + 77;
+        for (fill, flips) in [(1u64, vec![5u64, (1u64 << 32) + 4]), (0, vec![0u64, 1u64 << 31, (1u64 << 32) - 1, 1u64 << 32, (1u64 << 32) + 70])] {
+            let k = flips.len() as u64;
+            let fl: Vec<String> = flips.iter().map(|x| x.to_string()).collect();
+            let mut lines = vec![format!("bv H huge {} {} rsz {}", big, fill, fl.join(" "))];
+            lines.push("bv H len".to_string()); lines.push("bv H ones".to_string()); lines.push("bv H zeros".to_string());
+            for x in [0u64, 5, 6, (1u64 << 31) + 1, (1u64 << 32) - 1, 1u64 << 32, (1u64 << 32) + 1, (1u64 << 32) + 5, big - 1, big, big + 1, MAXU] {
+                if x < big { lines.push(format!("bv H get {}", x)); }
+                lines.push(format!("bv H rank {}", x)); lines.push(format!("bv H pred {}", x)); lines.push(format!("bv H succ {}", x));
+                if x <= big { lines.push(format!("bv H rank0 {}", x)); }
+            }
+            let ones = if fill == 1 { big - k } else { k };
+            for (op, c) in [("select", ones), ("select0", big - ones)] {
+                for r in [0u64, 1, 4, 5, k - 1, k, (1u64 << 32) - 4097, (1u64 << 32) - 3, (1u64 << 32) - 2, (1u64 << 32) - 1, 1u64 << 32, c.saturating_sub(1), c, c + 1, MAXU] { lines.push(format!("bv H {} {}", op, r)); }
+            }
+            g.group(lines);
+        }
+    }
     // exhaustive: every bit sequence up to length L, every argument 0..len+2, three construction routes
     let maxlen = if g.thorough { 11 } else { 8 };
     for len in 0..=maxlen {
